@@ -10,8 +10,17 @@ Open Scope Z_scope.
 
 (* apply_to_file: every handler seeks where the model says *)
 Lemma ap_interp_correct c pos0 o :
-  ap_interp expected_seek_sites (lenZ c) pos0 o [expected_apply_try]
+  ap_interp expected_seek_sites (lenZ c) pos0 o true [expected_apply_try]
   = position_of c o.
+Proof.
+  destruct o; cbn; rewrite ?Z.add_0_r; reflexivity.
+Qed.
+
+(* destructive=False: success seeks back to where the file was, the give-up
+   handlers seek as before *)
+Lemma ap_interp_correct_nd c pos0 o :
+  ap_interp expected_seek_sites (lenZ c) pos0 o false [expected_apply_try]
+  = position_of_nd c pos0 o.
 Proof.
   destruct o; cbn; rewrite ?Z.add_0_r; reflexivity.
 Qed.
